@@ -73,21 +73,24 @@ EvAdmit(c) == [e |-> "poll", c |-> c, t |-> now, res |-> "pending", ns |-> 1, si
 EvReject(c) == IF cfg.fb = 1 THEN [e |-> "poll", c |-> c, t |-> now, res |-> "ok", val |-> 9000 + c, ns |-> 0]
                ELSE [e |-> "poll", c |-> c, t |-> now, res |-> "err", kind |-> "open", ns |-> 0]
 
+\* cfg.sc > 0 (some sequential runs): the wrapped service takes sc ms *inside Service::call* (synchronously), so the
+\* poll that admits a call ends sc ms later than it began; the call's duration counts from before that call
+Sc == IF "sc" \in DOMAIN cfg THEN cfg.sc ELSE 0
 \* try_acquire
 PollAdmission(c) ==
   /\ st[c] = "created"
   /\ \/ /\ state = "closed"
-        /\ Admitted(c, 0 - 1) /\ UNCHANGED mach /\ ev' = EvAdmit(c) @@ Views(state, win)
+        /\ Admitted(c, 0 - 1) /\ UNCHANGED mach /\ ev' = [EvAdmit(c) EXCEPT !.t = now + Sc] @@ Views(state, win) /\ now' = now + Sc
      \/ /\ state = "open" /\ now - changedAt >= cfg.wait          \* first call after the wait: half-open, first trial
-        /\ Goto("half", 1) /\ Admitted(c, epoch + 1) /\ ev' = EvAdmit(c) @@ Views("half", <<>>)
+        /\ Goto("half", 1) /\ Admitted(c, epoch + 1) /\ ev' = [EvAdmit(c) EXCEPT !.t = now + Sc] @@ Views("half", <<>>) /\ now' = now + Sc
      \/ /\ state = "open" /\ now - changedAt < cfg.wait            \* shielded (C03)
-        /\ Rejected(c) /\ UNCHANGED mach /\ ev' = EvReject(c) @@ Views(state, win)
+        /\ Rejected(c) /\ UNCHANGED mach /\ ev' = EvReject(c) @@ Views(state, win) /\ now' = now
      \/ /\ state = "half" /\ hoAdm < cfg.perm                      \* a trial slot is free (C09)
         /\ Admitted(c, epoch) /\ hoAdm' = hoAdm + 1 /\ UNCHANGED <<state, changedAt, win, hoSucc, epoch>>
-        /\ ev' = EvAdmit(c) @@ Views(state, win)
+        /\ ev' = [EvAdmit(c) EXCEPT !.t = now + Sc] @@ Views(state, win) /\ now' = now + Sc
      \/ /\ state = "half" /\ hoAdm >= cfg.perm
-        /\ Rejected(c) /\ UNCHANGED mach /\ ev' = EvReject(c) @@ Views(state, win)
-  /\ UNCHANGED <<cfg, now>>
+        /\ Rejected(c) /\ UNCHANGED mach /\ ev' = EvReject(c) @@ Views(state, win) /\ now' = now
+  /\ UNCHANGED cfg
 
 Complete(c, o) ==
   /\ st[c] = "running" /\ gout[c] = "pending"
